@@ -98,8 +98,26 @@ def schedule(endpoints, graph, fs, spec_hashes, status_func, submit_func):
             cache[target] = _schedule(target)
         return cache[target]
 
+    def _schedule_all(root):
+        # Schedule dependencies before dependents with an explicit stack (same
+        # order as the recursion in _schedule), so that deep dependency chains
+        # do not hit the interpreter's recursion limit.
+        stack = [root]
+        while stack:
+            target = stack[-1]
+            pending = [
+                dep
+                for dep in sorted(graph.dependencies[target], key=lambda t: t.name)
+                if dep not in cache
+            ]
+            if pending:
+                stack.append(pending[0])
+            else:
+                stack.pop()
+                _cached_schedule(target)
+
     for target in sorted(endpoints, key=lambda t: t.name):
-        _cached_schedule(target)
+        _schedule_all(target)
 
     return cache
 
